@@ -537,7 +537,7 @@ def quiet_htslib():
 
 def run(ctx):
     quiet_htslib()
-    run_histories(ctx, ctx.n(80, 800))
+    run_histories(ctx, ctx.n(80, 600))
 
 
 def replay(ctx, data):
